@@ -89,8 +89,7 @@ Section Req02.
                                  (fun _ => OUT (UUpload c h v exp) s0) (OUT (UUpload c h v exp) s0) s0 t).
       { intros pre Hpre. apply (pre_then _ s0 [c]); [exact Hpre | exact HJ |].
         intros s1 t1 H1. apply (unit_from lay (UUpload c h v exp) s0 [c]); [split; assumption | auto | exact H1]. }
-      destruct (look s0 (c ++ [h])) as [[|v0]|]; apply Hgo; try (apply get_many_02; auto; left; reflexivity).
-      apply get_target_02; auto. left. reflexivity.
+      destruct (look s0 (c ++ [h])) as [[|v0]|]; apply Hgo; apply get_many_02; auto; left; reflexivity.
     - (* RDeleteItem *) destruct Hwf as [Hc Hh].
       assert (Hcd : forall c0, In c0 [c] -> is_data c0 = true) by (intros c0 Hin; apply in1 in Hin; subst; apply coll_is_data; exact Hc).
       assert (HJ : J02 s0 [c] s0 t) by (split; [exact Hi | split; [apply abs_eq_refl | exact Hd]]).
@@ -109,11 +108,10 @@ Section Req02.
       cbn [seqs]. apply (pre_then _ s0 [c; c']); [apply get_target_02; auto; left; reflexivity | exact HJ |].
       intros s1 t1 Hs1. apply mw_seq.
       assert (Hmid : calm (J02 s0 [c; c']) (Read (c' ++ [h']) (fun n => match n with
-                  | Some (F _) => if path_eqb c c' then get_many lay c' [h'] false else get_target lay c' h'
+                  | Some (F _) => get_target lay c' h'
                   | _ => if path_eqb c c' then Ret else get_many lay c' names' false end))).
-      { apply calm_read. intros [[|v0]|];
-          (destruct (path_eqb c c'); try apply calm_ret;
-           first [apply get_many_02; auto; right; left; reflexivity | apply get_target_02; auto; right; left; reflexivity]). }
+      { apply calm_read. intros [[|v0]|]; try (apply get_target_02; auto; right; left; reflexivity);
+          (destruct (path_eqb c c'); try apply calm_ret; apply get_many_02; auto; right; left; reflexivity). }
       eapply mw_mono; [ | | | apply (tail_before (UMove c h c' h' v exp exp') s0 [c; c'] _ s1 t1 Hmid Hs1) ]; cbn beta; auto.
       intros s2 t2 Hs2. apply (unit_from lay (UMove c h c' h' v exp exp') s0 [c; c']); [repeat split; assumption | auto | exact Hs2].
     - (* RPropPatch *) apply (unit_c02 lay (USetMeta c pv) s0 t Hwf); [intros c0 Hc0; apply Hd; exact Hc0 | exact Hi].
